@@ -113,6 +113,15 @@ def _deepcopy(node):
     return g
 
 
+def _strip_attrs(node):
+    """h5py: copy(..., without_attrs=True) copies the object(s) without any HDF5 attribute, through the whole subtree"""
+    node.attrs = {}
+    if isinstance(node, _GroupNode):
+        for k, link in node.children.items():
+            if link[0] == "hard":
+                _strip_attrs(link[1])
+
+
 # ---------------------------------------------------------------------------
 # conversion of values into a dataset type
 # ---------------------------------------------------------------------------
@@ -563,7 +572,13 @@ class Group(HLObject):
         parent, leaf, ap = dgrp._parent_and_leaf(name, create=True)
         if leaf in parent.children:
             raise RuntimeError("Unable to synchronously copy object (destination object already exists)")
-        parent.children[leaf] = ("hard", _deepcopy(snode))
+        for opt in ("shallow", "expand_soft", "expand_external", "expand_refs"):
+            if kw.get(opt):
+                raise NotImplementedError(f"Group.copy({opt}=True) is not modelled (shim)")
+        new = _deepcopy(snode)
+        if kw.get("without_attrs"):
+            _strip_attrs(new)
+        parent.children[leaf] = ("hard", new)
 
     def move(self, source, dest):
         self[dest] = self[source]
